@@ -1094,3 +1094,53 @@ Proof.
   split; [reflexivity|]. rewrite w_bif2, w_bif3. change (sentp (retry m)) with (@nil pkt).
   split; [reflexivity|]. split; [reflexivity|]. assumption.
 Qed.
+
+(* ------------------------------------------------------------------------------------------ *)
+(* what an ACK frame resolves, and what the manager reports to the Context as acknowledged      *)
+(* ------------------------------------------------------------------------------------------ *)
+Lemma ack_ranges_members : forall rs sp sp2 acked hulls,
+  ack_ranges sp rs = (sp2, acked, hulls) ->
+  (forall p, In p acked <-> In p sp /\ exists r, In r rs /\ in_range r p = true)
+  /\ (forall p, In p sp2 <-> In p sp /\ forall r, In r rs -> in_range r p = false).
+Proof.
+  induction rs as [|r t IH]; intros sp sp2 acked hulls H; cbn [ack_ranges] in H.
+  - injection H as <- <- <-. split; intros p; split.
+    + intros [].
+    + intros (_ & r & [] & _).
+    + intros Hp. split; [assumption|]. intros r [].
+    + tauto.
+  - destruct (ack_ranges (filter (fun p => negb (in_range r p)) sp) t) as [[sp2' acked2] hulls2] eqn:E.
+    injection H as <- <- <-. destruct (IH _ _ _ _ E) as [I1 I2]. split; intros p; split.
+    + intros Hp. apply in_app_iff in Hp as [Hp|Hp].
+      * apply filter_In in Hp as [Hp Hr]. split; [assumption|]. exists r. split; [left; reflexivity|assumption].
+      * apply I1 in Hp as (Hp & r' & Hr' & Hin). apply filter_In in Hp as [Hp _]. split; [assumption|].
+        exists r'. split; [right; assumption|assumption].
+    + intros (Hp & r' & [<-|Hr'] & Hin).
+      * apply in_app_iff. left. apply filter_In. split; assumption.
+      * apply in_app_iff. destruct (in_range r p) eqn:Er.
+        -- left. apply filter_In. split; assumption.
+        -- right. apply I1. split; [apply filter_In; split; [assumption|rewrite Er; reflexivity]|]. exists r'. split; assumption.
+    + intros Hp. apply I2 in Hp as [Hp Hn]. apply filter_In in Hp as [Hp Hr]. split; [assumption|].
+      intros r' [<-|Hr']; [destruct (in_range r p); [discriminate|reflexivity]|auto].
+    + intros (Hp & Hn). apply I2. split.
+      * apply filter_In. split; [assumption|]. rewrite (Hn r (or_introl eq_refl)). reflexivity.
+      * intros r' Hr'. apply Hn. right. assumption.
+Qed.
+
+(* the ranges reported through Context::on_packet_ack in an ACK op are the frame's ranges themselves:
+   a packet number is reported acknowledged iff one of the frame's ranges covers it -- nothing in a gap
+   of the frame is ever reported; and the packets the op resolves as acknowledged are exactly the
+   unresolved sent packets covered by those ranges, every other unresolved packet stays unresolved *)
+Theorem acked_callbacks_exact : forall m now rs rx sp acked hulls,
+  ack_ranges (sentp m) rs = (sp, acked, hulls) ->
+  (forall pn, (exists k, In k (range_calls rs now rx) /\ k_kind k = 5 /\ k_c k = now /\ k_a k <= pn /\ pn <= k_b k)
+              <-> (exists r, In r rs /\ fst r <= pn /\ pn <= snd r))
+  /\ (forall p, In p acked <-> In p (sentp m) /\ exists r, In r rs /\ in_range r p = true)
+  /\ (forall p, In p sp <-> In p (sentp m) /\ forall r, In r rs -> in_range r p = false).
+Proof.
+  intros m now rs rx sp acked hulls H. destruct (ack_ranges_members _ _ _ _ _ H) as [I1 I2].
+  split; [|split; assumption].
+  intros pn. unfold range_calls. split.
+  - intros (k & Hk & _ & _ & Ha & Hb). apply in_map_iff in Hk as (r & <- & Hr). exists r. cbn in *. auto.
+  - intros (r & Hr & Ha & Hb). eexists. split; [apply in_map_iff; exists r; split; [reflexivity|assumption]|]. cbn. auto.
+Qed.
